@@ -84,7 +84,8 @@ def replay_record(path, timeout=300):
                            capture_output=True, text=True, timeout=timeout)
     finally:
         shutil.rmtree(scratch, ignore_errors=True)
-    return r.returncode, (r.stdout + r.stderr)[-2000:]
+    # the verdict line is on stdout; progress bars of the real code fill stderr
+    return r.returncode, (r.stderr[-1500:] + "\n" + r.stdout[-1500:])
 
 
 def main(argv=None):
